@@ -329,6 +329,9 @@ def check_array_fills(rep, mod):
             bad = 'length %d is not a multiple of the %d-byte element size' % (ln, es)
         elif es > 1 and ln == n and ln < n * es:
             bad = 'length %d is the element count of the array, not its size in bytes (%d): only the first %d of %d elements are written and the rest keeps stale contents' % (ln, n * es, ln // es, n)
+        elif 'memset' in i.callee and ln < n * es:
+            # all 17 constant-length memsets of arrays in the library clear the whole array (confirmed by reading); a partial clear leaves stale entries behind
+            bad = 'clears %d of the %d bytes of the array: the remaining elements keep stale contents' % (ln, n * es)
         R.check(bad is None, mod.where(f, i), '%s of [%d x %d-byte elements]: %s' % (base_name(i.callee).split('.')[1] if '.' in i.callee else i.callee, n, es, bad), key='L-ARRAY-FILL|%s|%d' % (f.name, i.line or 0),
                 sample='%s: %d bytes = %d x %d' % (f.name, ln, n, es) if f.name == 'make_inflate_huff_code_dist' else None)
 
